@@ -316,7 +316,13 @@ def check_has_conflict(ctx, n_reads, n_keys):
             if d.name().startswith(('rd:', 'bd:', 'ord:', 'id_')):
                 desc[d.name()] = str(m[d])
     role = 'ConflictManager.has_conflict/disagrees-with-specification'
-    ctx.candidate(ob, role, f'has_conflict {why}; model {desc}', confirm=lambda: native_has_conflict(ctx, m, env))
+    def confirm():
+        r = native_has_conflict(ctx, m, env)
+        if r[0]:
+            return r
+        r2 = native_range_bounds(ctx)
+        return r2 if r2[0] else r
+    ctx.candidate(ob, role, f'has_conflict {why}; model {desc}', confirm=confirm)
     return ob
 
 
@@ -382,6 +388,89 @@ def native_has_conflict(ctx, m, env):
     if (not hit) and got == 'conflict':
         return False, spath, 'spurious Conflict natively (not a serializability violation)'
     return False, spath, f'held natively (expected conflict={hit}, got {got})'
+
+
+# ------------------------------------------------------------------ mark_range records exactly the given bounds
+def check_mark_range(ctx):
+    pat = r'^conflict_manager::<impl>::mark_range$'
+    ob = ctx.ob('mark-range/records-bounds', 'ConflictManager::mark_range records Read::All for an unbounded range and otherwise a Range with exactly the given bound kinds and keys', [pat])
+    fn = ctx.prog.find(pat)
+    ex = ctx.executor(no_inline=[r'ConflictManager::push_read$'], loop_bound=2)
+    env = {}
+
+    def setup(ex_, st, fr):
+        s, t = mk_bound_sym(ex_, st, 'in.start'), mk_bound_sym(ex_, st, 'in.end')
+        rng = Obj('(Bound<lsm_tree::Slice>, Bound<lsm_tree::Slice>)', 'range', 'tuple')
+        rng.fields[0] = Cell(s); rng.fields[1] = Cell(t)
+        fr.locals[fn.args[2]] = Cell(rng)
+        env.update(s=s, t=t)
+    paths = ex.run(fn, setup=setup)
+    ctx.functions_encoded[fn.key] = ctx.prog.hashes.get(fn.name, '')
+    ctx.paths_total += len(paths); ctx.events_total += sum(len(p.events) for p in paths)
+    bad = None
+    s, t = env['s'], env['t']
+    for p in paths:
+        if p.status in ('error', 'timeout', 'loop_bound'):
+            ob.status = 'undecided'; ob.detail = f'executor: {p.status} {p.notes[-1:]}'
+            return ob
+        if p.status != 'returned':
+            continue
+        pushes = [e for e in p.events if e.kind == 'CALL' and e.args.get('callee', '').endswith('push_read')]
+        ob.reach += 1
+        if len(pushes) != 1:
+            bad = (p, f'{len(pushes)} reads recorded'); break
+        rd = pushes[0].args['args'][2]
+        if not isinstance(rd, EnumV):
+            bad = (p, 'recorded read is not a Read value'); break
+        d = bv(rd.disc) if isinstance(rd.disc, int) else rd.disc
+        both_unb = z3.And(s.disc == bv(2), t.disc == bv(2))
+        claims = [z3.Implies(both_unb, d == bv(2)), z3.Implies(z3.Not(both_unb), d == bv(1))]
+        o = rd.payloads.get('Range')
+        if o is not None and 0 in o.fields and 1 in o.fields:
+            rs_, rt_ = o.fields[0].val, o.fields[1].val
+            for given, rec in ((s, rs_), (t, rt_)):
+                if isinstance(rec, EnumV):
+                    rdsc = bv(rec.disc) if isinstance(rec.disc, int) else rec.disc
+                    claims.append(z3.Implies(d == bv(1), rdsc == given.disc))
+                    for var in ('Included', 'Excluded'):
+                        ro = rec.payloads.get(var)
+                        if ro is not None and 0 in ro.fields and isinstance(deref(ro.fields[0].val), Obj):
+                            if cid(ro.fields[0].val) != cid(given.data['key']):
+                                vd = {'Included': 0, 'Excluded': 1}[var]
+                                claims.append(z3.Implies(z3.And(d == bv(1), rdsc == bv(vd)), z3.BoolVal(False)))
+        r, m = ctx.sat(p.pc + [z3.Not(z3.And(*claims))], ob)
+        if r != z3.unsat:
+            bad = (p, 'recorded read differs from the given bounds'); break
+    if bad is None and ob.reach:
+        ob.status = 'discharged'; ob.sample = {'paths': ob.reach}
+    elif bad is None:
+        ob.status = 'undecided'; ob.detail = 'vacuous'
+    else:
+        ctx.candidate(ob, 'ConflictManager.mark_range/wrong-bounds-recorded', f'mark_range: {bad[1]}', confirm=lambda: native_range_bounds(ctx))
+    return ob
+
+
+def native_range_bounds(ctx):
+    """phantom at each edge of a scanned range: t1 scans (lo, hi] / [lo, hi) etc., t2 inserts a key exactly on / next to a bound"""
+    lo, mid, hi = '6b32', '6b34', '6b36'
+    cases = []
+    for sk in 'ie':
+        for ek in 'ie':
+            for key, inside in ((lo, sk == 'i'), (hi, ek == 'i'), (mid, True), ('6b31', False), ('6b37', False)):
+                cases.append((sk, ek, key, inside))
+    last = (False, None, 'not run')
+    for sk, ek, key, inside in cases:
+        L = ['dir $DIR/db', 'kind opt', 'open workers=0', 'ks a', 'insert a 6b30 30', 'tx t1 begin', f'tx t1 range_b a {sk} {lo} {ek} {hi}',
+             'tx t2 begin', f'tx t2 insert a {key} 77', 'tx t2 commit', 'tx t1 insert a 7a7a 7a', 'tx t1 commit', 'close']
+        spath, out = ctx.run_scenario('\n'.join(L) + '\n', tag=f'rangeb-{sk}{ek}-{key}')
+        rs = [r for _i, _c, r in out]
+        if any(c == 'CRASH' for _i, c, _r in out):
+            return True, spath, 'crash: ' + rs[-1][-200:]
+        t1c = [r for l, r in zip(L, rs) if l == 'tx t1 commit']
+        if inside and t1c and t1c[0] == 'ok':
+            return True, spath, f't1 scanned {"[" if sk == "i" else "("}{lo},{hi}{"]" if ek == "i" else ")"}, t2 inserted {key} inside it and committed, t1 committed: accepted (must be Conflict)'
+        last = (False, spath, 'held natively on 20 bound/phantom combinations')
+    return last
 
 
 # ------------------------------------------------------------------ Oracle::with_commit
@@ -503,6 +592,9 @@ def native_commit_battery(ctx):
                          'tx t1 commit', 'tx t2 commit'], ['ok', 'conflict']),
         'stale-read-after-two-commits': (['tx t0 begin', f'tx t0 get a {K1}', 'tx t1 begin', f'tx t1 insert a {K1} 31', 'tx t1 commit',
                                           'tx t2 begin', f'tx t2 insert a {K2} 32', 'tx t2 commit', f'tx t0 insert a {K2} 33', 'tx t0 commit'], ['ok', 'ok', 'conflict']),
+        'stale-read-after-three-commits': (['tx t0 begin', f'tx t0 get a {K1}', 'tx t1 begin', f'tx t1 insert a {K1} 31', 'tx t1 commit',
+                                            'tx t2 begin', f'tx t2 insert a {K2} 32', 'tx t2 commit', 'tx t3 begin', 'tx t3 insert a 6b33 33', 'tx t3 commit',
+                                            'tx t4 begin', 'tx t4 insert a 6b34 34', 'tx t4 commit', f'tx t0 insert a {K2} 35', 'tx t0 commit'], ['ok', 'ok', 'ok', 'ok', 'conflict']),
         'conflict-leaves-no-effect': (['tx t1 begin', 'tx t2 begin', f'tx t1 get a {K1}', f'tx t2 insert a {K1} 32', 'tx t2 commit',
                                        f'tx t1 insert a 6b39 39', 'tx t1 commit', 'get a 6b39'], ['ok', 'conflict']),
         'serial-commits-succeed': (['tx t1 begin', f'tx t1 get a {K1}', f'tx t1 insert a {K1} 31', 'tx t1 commit', 'tx t2 begin', f'tx t2 get a {K1}',
@@ -547,6 +639,7 @@ def run(ctx):
     shapes = [(1, 1), (1, 2), (2, 1)] if ctx.tier == 'quick' else [(1, 0), (1, 1), (1, 2), (2, 1), (2, 2)]
     for nr, nk in shapes:
         check_has_conflict(ctx, nr, nk)
+    check_mark_range(ctx)
     check_with_commit(ctx)
     for o in ctx.obligations:
         ctx.samples.append(o.as_dict())
